@@ -32,6 +32,15 @@ type RunResult struct {
 	Leaked     []string       `json:"leaked,omitempty"`
 	PoolViol   int            `json:"pool_viol"`
 	KnownHit   string         `json:"known_hit,omitempty"`
+	Sample     *Sample        `json:"sample,omitempty"`
+}
+
+// Sample is one run written out in full for the evidence file.
+type Sample struct {
+	Plan    []byte   `json:"-"`
+	PlanRaw any      `json:"plan"`
+	Trace   []string `json:"trace"`
+	Summary string   `json:"summary"`
 }
 
 // InBubble runs f inside a fresh synctest bubble and survives the end-of-bubble deadlock panic
